@@ -712,8 +712,10 @@ const sim_harness_t sim_harness = {
 	.probe_names = probe_names,
 	.min_ops = 6,
 	.rule = "one case = one scenario (event-handling, yielding, sleeping and 0-2 waiting fibres under a "
-		"discrete-event main loop that also calls fibre_run/fibre_kill) with 1-16 interrupt-context "
-		"calls (fibre_run_atomic, fibre_eventq_claim/send) placed by the tape between any two "
+		"discrete-event main loop that also calls fibre_run/fibre_kill) with 1-24 interrupt-context "
+		"calls (one run in 40 is long-lived: 280-680 calls through an event queue of depth 3/5/6/7; "
+		"one run in 3 starts with a back-to-back burst that fills the 8-deep wake-up queue) "
+		"(fibre_run_atomic, fibre_eventq_claim/send) placed by the tape between any two "
 		"atomic operations / library data accesses of the main context, nested to depth 2, or "
 		"issued by 1-3 free-running sender contexts, followed by a fault-free run to quiescence "
 		"and a queue health check; non-trivial = at least 6 calls and at least one interrupt or "
